@@ -16,12 +16,6 @@ pub uninterp spec fn parse_any<F>(s: Seq<char>) -> Option<F>;
 pub assume_specification<F: ::std::str::FromStr>[str::parse::<F>](s: &str) -> (r: ::std::result::Result<F, F::Err>)
     ensures match r { Ok(i) => parse_any::<F>(s@) == Some(i), Err(_) => parse_any::<F>(s@) is None };
 
-// String::from(&str) copies the characters (std); stated over vstd's From spec functions
-pub broadcast axiom fn axiom_string_from_str(s: &str)
-    ensures #![trigger s@]
-        <String as vstd::std_specs::convert::FromSpec<&str>>::obeys_from_spec(),
-        (<String as vstd::std_specs::convert::FromSpec<&str>>::from_spec(s))@ == s@;
-
 pub struct ParseErr { pub _p: u8 }
 pub struct SigErr { pub _p: u8 }
 impl ::std::str::FromStr for Bolt11Invoice {
